@@ -356,7 +356,7 @@ def curve(job, mode):
                     build.assume_permeance_clamp(pt)
 
                     def run():
-                        dc = DiffusionCurve.__new__(DiffusionCurve)
+                        dc = build.bare(DiffusionCurve)
                         dc.mixture, dc.membrane_name, dc.feed_temperature = mix, "memb", T
                         dc.feed_compositions = [build.comp(x, basis) for x in xs]
                         dc.partial_fluxes = [(real("J1_%d" % i), real("J2_%d" % i)) for i in range(2)]
